@@ -281,11 +281,21 @@ func runC17(h *H) {
 					sc.SetDeadline(time.Now().Add(30 * time.Second))
 					sbr := bufio.NewReader(sc)
 					io.WriteString(sc, greeting)
-					l, err := sbr.ReadString('\n')
-					if err != nil {
-						return
+					var tag []string
+					for {
+						l, err := sbr.ReadString('\n')
+						if err != nil {
+							return
+						}
+						tag = strings.Fields(l)
+						if len(tag) >= 2 && strings.ToUpper(tag[1]) == "CAPABILITY" {
+							// the client may ask for the capabilities first (the greeting carries
+							// none): a legitimate plaintext command before STARTTLS
+							fmt.Fprintf(sc, "* CAPABILITY IMAP4rev1 STARTTLS LOGINDISABLED\r\n%s OK done\r\n", tag[0])
+							continue
+						}
+						break
 					}
-					tag := strings.Fields(l)
 					if len(tag) < 2 || strings.ToUpper(tag[1]) != "STARTTLS" {
 						return
 					}
